@@ -15,6 +15,8 @@ import os
 from typing import Any, Dict, List, Optional, Sequence, Tuple
 
 from .. import tlc
+from .. import watchdog
+from ..watchdog import Stalled, bounded
 from ..common import Verdict, rng, use_repo
 
 use_repo()
@@ -87,9 +89,12 @@ def run_buffer(stream: str, cuts: Sequence[int], thr: int, real_map=to_real, pie
         raised = ""
         try:
             buf.append(real_map(piece))
-            buf.process(cb)
-        except Watchdog as e:
+            with bounded(30, f"Buffer.process on {len(stream)} characters"):
+                buf.process(cb)
+        except (Watchdog, Stalled) as e:
             raised = "non-termination: " + str(e)
+            if watchdog.fired_total >= 3:
+                raise Stalled(str(e) + " (third occurrence: the check stops here)")
         except Exception as e:
             raised = f"{type(e).__name__}: {e}"
         dl = []
